@@ -282,22 +282,25 @@ def run(ctx):
                     break
     # (c2) the same under a project-wide exclusion that matches nothing here (exclude-checks=IMPL02): packages with @ignore comments of
     # their own, listed in different orders and alone
-    xflags = ("--config.exclude-checks=IMPL02",)
-    base2, fail2 = bb(["./..."], None, xflags)
-    if fail2:
-        raise vlib.ToolError("black-box reference run with exclude-checks failed: %s" % fail2)
-    for args in (["./multi", "./multi2", "./lib/..."], ["./multi2", "./multi", "./lib/..."], ["./lib/...", "./multi2", "./multi"], ["./multi"], ["./multi2"],
-                 ["./multi", "./multi2", "./lib/..."]):
-        for fl in (xflags, xflags + ("-debug=p",)):
-            got, fail = bb(args, None, fl)
-            nrun += 1
-            dirs = {a.strip("./").split("/")[0] for a in args}
-            if (fail or any(got.get(d, set()) != base2.get(d, set()) for d in dirs)) and len(ctx.violations) < 3:
-                diff = {d: (sorted(x[:3] for x in base2.get(d, set()) - (got or {}).get(d, set())), sorted(x[:3] for x in (got or {}).get(d, set()) - base2.get(d, set())))
-                        for d in dirs if (got or {}).get(d, set()) != base2.get(d, set())}
-                ctx.violation("with %s, arguments %s %s: %s (per package: only in the reference run ./..., only in this run): %s"
-                              % (xflags[0], args, list(fl[1:]), fail or "the diagnostics of a package depend on the run set / order", diff),
-                              {"kind": "blackbox", "args": args, "flags": list(fl)})
+    # and under a list whose tokens name no code at all (a slip such as CTORO1): nothing is excluded, no run fails
+    for xflags in (("--config.exclude-checks=IMPL02",), ("--config.exclude-checks=CTORO1,zz9",)):
+        base2, fail2 = bb(["./..."], None, xflags)
+        if fail2 and xflags[0].endswith("IMPL02"):
+            raise vlib.ToolError("black-box reference run with exclude-checks failed: %s" % fail2)
+        if fail2:
+            base2 = base      # tokens that match no code leave the unrestricted result (Config.tla: Matches is false for them)
+        for args in (["./multi", "./multi2", "./lib/..."], ["./multi2", "./multi", "./lib/..."], ["./lib/...", "./multi2", "./multi"], ["./multi"], ["./multi2"],
+                     ["./multi", "./multi2", "./lib/..."], ["./..."]):
+            for fl in (xflags, xflags + ("-debug=p",)):
+                got, fail = bb(args, None, fl)
+                nrun += 1
+                dirs = {a.strip("./").split("/")[0] for a in args} - {""}
+                if (fail or any(got.get(d, set()) != base2.get(d, set()) for d in dirs)) and len(ctx.violations) < 3:
+                    diff = {d: (sorted(x[:3] for x in base2.get(d, set()) - (got or {}).get(d, set())), sorted(x[:3] for x in (got or {}).get(d, set()) - base2.get(d, set())))
+                            for d in dirs if (got or {}).get(d, set()) != base2.get(d, set())}
+                    ctx.violation("with %s, arguments %s %s: %s (per package: only in the reference run ./..., only in this run): %s"
+                                  % (xflags[0], args, list(fl[1:]), fail or "the diagnostics of a package depend on the run set / order", diff),
+                                  {"kind": "blackbox", "args": args, "flags": list(fl)})
 
     # (d) a go.work workspace with two independent modules: the diagnostics of each module do not depend on the other being in the run
     ws = os.path.join(ctx.scratch, "ws")
